@@ -2,12 +2,18 @@
 src/work_queue.c (with the inlined include/mpsc_fifo.h push/trypop) with
 coq/WorkQueue.v + implementation-side monitor.
 
-case = params [drain budget], per thread a list of (1, item) pushes with items
-distinct and in 2..1100, schedule.  The harness thread follows the documented
-protocol: a push that returns START_WORKING is followed by get_work calls until
-EMPTY.  Trace: locs 0 head, 1 tail, 2 in_count, 3 out_count, 98+2n node n data,
-99+2n node n next; push ret at loc k+1, get_work ret at loc 100+k+1 (value =
-item handed out, 0 = EMPTY)."""
+case = params [drain budget], per thread a list of (1, item) pushes / (2, item)
+pushes marked "fast-forward", items distinct and in 2..1100, schedule.  The
+harness thread follows the documented protocol: a push that returns
+START_WORKING is followed by get_work calls until EMPTY.  Trace: locs 0 head,
+1 tail, 2 in_count, 3 out_count, 98+2n node n data, 99+2n node n next; push ret
+at loc k+1, get_work ret at loc 100+k+1 (value = item handed out, 0 = EMPTY).
+
+Fast-forward: a marked push that returns START_WORKING is followed by one extra
+step of the fresh worker (event  tid 2 919 FFAMT) which adds FFAMT = 2^32 - 3
+to both in_count and out_count -- the state FFAMT rounds of "push one more, get
+one" by that worker reach through the public API -- so that sessions in which
+in_count passes 2^32 are exercised (family fast_forward of gen_cases)."""
 import random
 
 from vf import core
@@ -15,6 +21,9 @@ from vf import core
 THEOREMS = ["wq_one_worker", "wq_each_item_once", "wq_empty_means_drained",
             "wq_no_stranded_item", "wq_mpsc_single_consumer"]
 PUSH = 1
+PUSH_FF = 2        # push; if told START_WORKING: both counters += FFAMT before the first get_work
+FFAMT = 2 ** 32 - 3
+FF_STEPS = 1
 LOC_IN = 2
 PUSH_STEPS = 4     # add_and_fetch, next := NULL, exchange tail, link
 TAKE_STEPS = 7     # head, next, head :=, data, data :=, out_count read, write
@@ -57,6 +66,8 @@ def monitor(case, tr, raw):
     stuck = False
     for (t, loc, kind, val) in tr:
         if kind == 919:
+            if loc == LOC_IN:     # fast-forward of the harness: neutral (counter values are never judged)
+                continue
             stuck = True
             continue
         if kind != 909 and not worker[t] and npush[t] < len(progs[t]):
@@ -105,6 +116,83 @@ def monitor(case, tr, raw):
     return None
 
 
+def ff_sched(order, overlap, W, place):
+    """schedule for: thread 0 = worker whose marked push fast-forwards; order = pusher thread of each further
+    push.  overlap k in 1..3: a push by another thread than its predecessor starts (add_and_fetch) after k steps of the
+    predecessor; 0: pushes one after the other.  W[k-1] = number of worker steps granted before the k-th further
+    add_and_fetch (k = 1..3; the 3rd one is the push that lands on 2^32 + 1).  place: where the extra worker steps go
+    between two adds (0 right after the previous add, 1 right before the next, 2 spread)."""
+    keyed = []
+    for j, u in enumerate(order):
+        for i in range(PUSH_STEPS):
+            key = 4.0 * j + i
+            if i == 0 and overlap and j > 0 and order[j - 1] != u:
+                key = 4.0 * (j - 1) + overlap - 0.5
+            keyed.append((key, j, u))
+    G = [u for (_, _, u) in sorted(keyed)]
+    seen, adds = {}, []          # indices in G of the add_and_fetch steps
+    for idx, u in enumerate(G):
+        if seen.get(u, 0) % PUSH_STEPS == 0:
+            adds.append(idx)
+        seen[u] = seen.get(u, 0) + 1
+    sched, done, lo = [], 0, 0
+    for k, w in enumerate(W):
+        if k >= len(adds):
+            break
+        seg, extra = G[lo:adds[k]], max(0, w - done)
+        if seg:                       # seg[0] is the previous add_and_fetch
+            sched.append(seg[0])
+            seg = seg[1:]
+        if k == 0 or place == 0:
+            sched += [0] * extra + seg
+        elif place == 1 or not seg:
+            sched += seg + [0] * extra
+        else:
+            per, r = divmod(extra, len(seg))
+            for i, g in enumerate(seg):
+                sched += [g] + [0] * (per + (1 if i < r else 0))
+        done += extra
+        lo = adds[k]
+    return sched + G[lo:]
+
+
+def ff_family(rng, tier):
+    """the worker (thread 0, one marked push) fast-forwards; then 2..6 further pushes by 1-3 other threads while the
+    worker is active.  in_count after the fast-forward is 2^32 - 2: the 3rd further push lands on 2^32 + 1.  The
+    worker must not see out_count == in_count before that (it would rebase the counters): with k items taken its
+    earliest comparison is its step 5 + 7k + 4, so W[k-1] <= 8 + 7k keeps it one announced item behind."""
+    cases = []
+    orders = [[1, 1], [1, 2], [1, 1, 1], [1, 2, 1], [1, 2, 2], [2, 1, 2], [1, 1, 2], [1, 2, 3], [3, 2, 1],
+              [1, 1, 1, 1], [1, 2, 1, 2], [2, 2, 1, 1], [1, 2, 3, 1], [1, 1, 1, 2, 2], [1, 2, 1, 2, 1],
+              [1, 2, 3, 3, 2], [1, 1, 1, 1, 1, 1], [1, 2, 1, 2, 1, 2], [2, 1, 1, 2, 3, 3]]
+    lim = [8 + 7 * k for k in (1, 2, 3)]
+
+    def emit(order, overlap, W, place, tail0):
+        nt = max(order) + 1
+        items = iter(range(3, 60))
+        progs = [[(PUSH_FF, 2)] + [(rng.choice([PUSH, PUSH_FF]), 40 + i) for i in range(tail0)]]
+        for u in range(1, nt):
+            progs.append([(PUSH_FF if rng.random() < 0.2 else PUSH, next(items)) for _ in order if _ == u])
+        cases.append(core.fmt_case([DMAX], progs, ff_sched(order, overlap, W, place)))
+
+    # sweep: which thread performs the crossing push (order[2]) x where the worker is at that moment (W3 = 5..29)
+    for order in ([1, 1, 1], [1, 2, 1], [1, 2, 2], [2, 1, 2], [1, 2, 3], [1, 1, 1, 1], [1, 2, 2, 1], [1, 2, 3, 3, 2, 1]):
+        for w3 in range(PUSH_STEPS + FF_STEPS, lim[2] + 1):
+            for place in (0, 1, 2):
+                W = [min(w3, lim[0] - (place == 2)), min(w3, lim[1]), w3]
+                emit(order, (w3 + place) % 4, W, place, 1 if w3 % 5 == 0 else 0)
+    n_sweep = len(cases)
+    # random triples on every order (the fast-forward may also come after the first further pushes: W1 < 5)
+    per = 6 if tier == "quick" else 60
+    for order in orders:
+        for _ in range(per):
+            w1 = rng.randint(1, lim[0])
+            w2 = rng.randint(w1, lim[1])
+            w3 = rng.randint(max(w2, PUSH_STEPS + FF_STEPS), lim[2])
+            emit(order, rng.randrange(4), [w1, w2, w3], rng.randrange(3), rng.randrange(2))
+    return cases, n_sweep
+
+
 def gen_cases(ctx, tier):
     rng = random.Random(ctx.seed * 7919 + 17)
     cases = []
@@ -139,6 +227,10 @@ def gen_cases(ctx, tier):
     cases.append(core.fmt_case([DMAX], [[]], []))
     cases.append(core.fmt_case([DMAX], [[], [(PUSH, 2)]], [1, 1, 0, 1]))
     n_b = len(cases) - b0
+    # (5) fast-forward: sessions in which in_count passes 2^32 while the worker is active
+    ff, n_ff_sweep = ff_family(rng, tier)
+    cases += ff
+    ctx.ff_cases = ff
     # (2) random programs x schedules (three styles)
     nrand = 4000 if tier == "quick" else 60000
     for _ in range(nrand):
@@ -148,7 +240,7 @@ def gen_cases(ctx, tier):
         progs = []
         for t in range(nt):
             n = rng.randint(0 if nt > 2 else 1, 5)
-            progs.append([(PUSH, items.pop()) for _ in range(n)])
+            progs.append([(PUSH_FF if rng.random() < 0.2 else PUSH, items.pop()) for _ in range(n)])
         total = sum(len(p) for p in progs)
         length = rng.randint(4, (PUSH_STEPS + TAKE_STEPS + 6) * total + 8)
         cases.append(core.fmt_case([DMAX], progs, core.random_sched(rng, nt, length, rng.randrange(3))))
@@ -157,7 +249,7 @@ def gen_cases(ctx, tier):
     for _ in range(nseq):
         n = rng.randint(1, 12)
         items = rng.sample(range(2, 1100), n)
-        cases.append(core.fmt_case([DMAX], [[(PUSH, a) for a in items]], []))
+        cases.append(core.fmt_case([DMAX], [[(rng.choice([PUSH, PUSH, PUSH_FF]), a) for a in items]], []))
     n3 = 0
     if tier == "thorough":
         # three threads: worker + two pushers, sampled interleavings
@@ -168,6 +260,7 @@ def gen_cases(ctx, tier):
             p1 = [(PUSH, 3)] + ([(PUSH, 5)] if rng.random() < 0.3 else [])
             cases.append(core.fmt_case([DMAX], [[(PUSH, 2)], p1, [(PUSH, 4)]], [0] * pre + il))
     ctx.coverage["case_distribution"] = {"exhaustive_2thread_interleavings": n_ex, "boundary": n_b,
+                                         "fast_forward_sweep": n_ff_sweep, "fast_forward_random": len(ff) - n_ff_sweep,
                                          "random_programs": nrand, "sequential": nseq,
                                          "sampled_3thread_interleavings": n3, "total": len(cases)}
     return cases
@@ -185,6 +278,11 @@ def run(ctx):
         cases = corpus(ctx) + gen_cases(ctx, ctx.tier)
         ok = core.correspond(ctx, "wq", "workqueue", exe, cases, monitor)
         st = ctx.stats["wq"]
+        ffm = core.model_run("workqueue", ctx.ff_cases)
+        ctx.coverage["fast_forward"] = {
+            "rule": "cases of the fast_forward family; crossing = the trace has an add_and_fetch on in_count that "
+                    "reads 2^32 (that push is number 2^32 + 1 of its session, with the first worker still active)",
+            "cases": len(ffm), "crossing_2^32": sum(1 for l in ffm if l and (" 2 55 %d " % 2 ** 32) in " " + l + " ")}
         ctx.coverage.update({"traces_validated_against_impl": st["cases"] - st["differ"],
                              "evaluations": st["cases"], "distinct_nontrivial": st["nontrivial"],
                              "rule": "case = (push lists per thread, schedule); non-trivial = at least one "
